@@ -27,6 +27,9 @@ def call_fn_hook(it, fv, args, kwargs):
     """A user-supplied callable (live spy / live trace callback, timer target...).
     Assumed contract: it does not touch the chart; its invocation is recorded in a ghost log."""
     c = it.c
+    stub = c.pyghost.get(('stub', fv.e.sexpr()))
+    if stub is not None:
+        return stub(it, args, kwargs)           # an abstract stand-in supplied by a target (e.g. "the wrapped step")
     which = c.pyghost.get(('cbname', fv.e.sexpr()), 'callback')
     ghost_seq_push(c, 'log_' + which, c.to_ref(args[0]) if args else NONE)
     return None
